@@ -18,7 +18,8 @@ W = 1 << 64
 RULE = ("request histories (1..40 ops of malloc/calloc/realloc/free/aligned_alloc/aligned_free, frees in arbitrary "
         "order, NULL and stale pointers) on buffers at every address residue mod 8 (and random residues mod 2^16), "
         "capacities 0..200 (some to 4096) with dirtied memory plus nominal capacities up to 2^63-1; sizes drawn "
-        "from {0,1,7,8,9,..., remaining+-{0,1,7,8,9}, 2^63, 2^64-k, overflowing calloc products}; a case is "
+        "from {0,1,7,8,9,..., remaining+-{0,1,7,8,9}, 2^63, 2^64-k, overflowing calloc products}; plus ALL histories of "
+        "depth 3 (quick) / 4 (thorough) over {M0,M8,M9,C1x9,A16x16,R<j>,1,R<j>,17,F<j>} x 8 residues x capacities {16,24,40}; a case is "
         "non-trivial when it has >= 2 successful allocations and >= 1 free/realloc/aligned request, distinct case "
         "strings counted")
 ASSUMPTIONS = [
@@ -188,13 +189,14 @@ def gen_case(r, big=False, maxops=25, residue=None):
 
 def gen(ctx, seed, tier):
     r = ctx.rng("gen", seed)
-    n_small, n_big = (3200, 900) if tier == "quick" else (40000, 10000)
+    n_small, n_big = (12000, 3000) if tier == "quick" else (200000, 50000)
     cases = []
     for i in range(n_small):
         cases.append(gen_case(r, False, maxops=25 if i % 7 else 40, residue=i % 8))
     for i in range(n_big):
         cases.append(gen_case(r, True, maxops=16, residue=i % 8))
     cases += sweep(8 if tier == "quick" else 3)
+    cases += exhaustive(3, [16, 24, 40]) if tier == "quick" else exhaustive(4, [16, 24, 40])
     return cases
 
 
@@ -213,6 +215,22 @@ def sweep(step):
             for j, s in enumerate(SCRIPTS):
                 if (C + j + res) % step == 0:
                     out.append("%d %d 1 %s" % (BASE + (1 << 20) + 64 + res, C, s))
+    return out
+
+
+def exhaustive(depth, caps):
+    """ALL histories of the given depth over a small request alphabet (sizes around the unit, zero sizes, an
+    aligned request, realloc and free of every earlier request) x all 8 address residues x the given capacities"""
+    base = ["M0", "M8", "M9", "C1,9", "A16,16"]
+    hist = [[]]
+    for i in range(depth):
+        alpha = base + [x for j in range(i) for x in ("R%d,1" % j, "R%d,17" % j, "F%d" % j)]
+        hist = [h + [a] for h in hist for a in alpha]
+    out = []
+    for res in range(8):
+        for C in caps:
+            hdr = "%d %d 1 " % (BASE + (1 << 20) + 128 + res, C)
+            out += [hdr + " ".join(h) for h in hist]
     return out
 
 
